@@ -299,6 +299,10 @@ def netcdf_file(ai, path, missing_enc="nan", missing_encs=None, with_vars=("loca
                 a[pos] = -999
             elif e == "1e31":
                 a[pos] = 1e31
+            elif e == "inf":
+                a[pos] = np.inf
+            elif e == "-inf":
+                a[pos] = -np.inf
             elif e in ("masked", "fill"):
                 mask[pos] = True
                 need_fill = need_fill or e == "fill"
